@@ -168,6 +168,35 @@ Theorem C12_F1_header_never_written : forall c o sc,
 Proof. exact www_header_never_written. Qed.
 Print Assumptions C12_F1_header_never_written.
 
+(** with the candidate repair of C12-F1 (fixes/C12-F1.diff; model variant
+    [fixed = true], which `bin/check C12` runs against once the repair is applied)
+    the header theorem holds without guard, and nothing but that header changes *)
+Theorem C12_www_authenticate_has_header_fixed : forall c o realm cause,
+  (forall s h b, http_respond_f true c o (ScHandled (MWWW realm) cause) = HFinal s h b ->
+     h_www h = Some ("Basic realm=" ++ effective_realm realm)%string) /\
+  (forall d, grpc_respond_f true c o (ScHandled (MWWW realm) cause) = GDenied d ->
+     h_www (g_hdrs d) = Some ("Basic realm=" ++ effective_realm realm)%string) /\
+  (exists d, grpc_respond_f true c o (ScHandled (MWWW realm) cause) = GDenied d /\
+             g_code d = GUnauthenticated /\ g_status d = grpc_code (ov_authn c) 401) /\
+  (valid_code (http_code (ov_authn c) 401) = true ->
+     exists h b, http_respond_f true c o (ScHandled (MWWW realm) cause) = HFinal (http_code (ov_authn c) 401) h b).
+Proof. exact www_authenticate_has_header_fixed. Qed.
+Print Assumptions C12_www_authenticate_has_header_fixed.
+
+Theorem C12_fix_only_adds_challenge : forall c o sc,
+  (match http_respond c o sc, http_respond_f true c o sc with
+   | HFinal s h b, HFinal s' h' b' =>
+       s = s' /\ b = b' /\ h_location h = h_location h' /\ h_ctype h = h_ctype h' /\
+       (h_www h' = h_www h \/ h_www h' = challenge_of sc)
+   | HAbort, HAbort | HPositive, HPositive => True
+   | _, _ => False
+   end) /\
+  (match sc with ScHandled (MWWW _) _ => True | _ => http_respond_f true c o sc = http_respond c o sc /\
+                                                      grpc_respond_f true c o sc = grpc_respond c o sc end) /\
+  http_respond_f false c o sc = http_respond c o sc /\ grpc_respond_f false c o sc = grpc_respond c o sc.
+Proof. exact fixed_only_adds_challenge. Qed.
+Print Assumptions C12_fix_only_adds_challenge.
+
 (** a panic: internal-error class over HTTP, a gRPC Internal status under Envoy *)
 Theorem C12_panic_response : forall c o,
   (valid_code (http_code (ov_internal c) 500) = true ->
